@@ -22,8 +22,8 @@ LO, HI = P.get("lo", 0), P.get("hi", 99)
 MODE = P.get("mode", "semantics")  # semantics: plumbing options fixed; plumbing: every option, a small expression/document pool
 PLUMB_E = P.get("plumb_e", [0, 7])
 PLUMB_D = [0, 2]
-NDOCS = P.get("ndocs", 5)
-DOCS = ['{"a": [1, {"a": 1, "b": "x\\u00e9"}], "b c": {"a b": 2}, "k": null}', '[1, 2, {"a": [3]}]', '{"a": ', '"just a string"', ""]
+NDOCS = P.get("ndocs", 6)
+DOCS = ['{"a": [1, {"a": 1, "b": "x\\u00e9"}], "b c": {"a b": 2}, "k": null}', '[1, 2, {"a": [3]}]', '{"a": ', b'{"a": "\xff"}', '"just a string"', ""]
 QUERIES = ["$.a", "$..a", "$[?@.a]", "$.a[?@.a == 1]", "$[?length(@.a) == 2]", "$['b c']", "", "$[", "$[?count(1) == 1]", "$[?nosuch(@.a)]",
            "$[9007199254740992]", "$[?@.a == 'x\\u00e9']", "$.a[1].b", "$[?@.a =~ /[/]", "$[?length(@.*) == 1]"]
 POINTERS = ["", "/a", "/a/0", "/a/1/a", "/b c/a b", "/b%20c/a%20b", "/zz", "/a/9", "/a/-", "a", "/a/1/b", "/k", "/\\u0061"]
@@ -50,7 +50,9 @@ def _run(argv: List[str], files: _Files, stdin: str = "") -> Dict[str, Any]:
         if "r" in self._mode:
             if name not in files.read:
                 raise argparse.ArgumentTypeError(f"can't open '{name}'")
-            return io.BytesIO(files.read[name].encode("utf-8")) if "b" in self._mode else io.StringIO(files.read[name])
+            content = files.read[name]
+            raw = content if isinstance(content, bytes) else content.encode("utf-8")
+            return io.BytesIO(raw) if "b" in self._mode else io.StringIO(raw.decode("utf-8"))
         buf = io.StringIO()
         files.written[name] = buf
         return buf
@@ -78,14 +80,14 @@ def _run(argv: List[str], files: _Files, stdin: str = "") -> Dict[str, Any]:
 
 def _asfile(text: str) -> Any:
     """The library call the CLI corresponds to receives the document as a readable (binary) file."""
-    return io.BytesIO(text.encode("utf-8"))
+    return io.BytesIO(text if isinstance(text, bytes) else text.encode("utf-8"))
 
 
 def _expected(call: Any) -> Any:
     try:
         return ("ok", call())
-    except (JSONPathError, JSONPointerError, JSONPatchError, json.JSONDecodeError) as e:
-        return ("rejected", type(e).__name__)
+    except (JSONPathError, JSONPointerError, JSONPatchError, json.JSONDecodeError, UnicodeDecodeError) as e:
+        return ("rejected", type(e).__name__)  # UnicodeDecodeError: an undecodable document
 
 
 def _judge(res: Dict[str, Any], exp: Any, pretty: bool, debug: bool, outfile: bool, files: _Files) -> bool:
@@ -130,7 +132,7 @@ def path_cmd(qi: int, di: int, pretty: bool, nue: bool, debug: bool, ntc: bool, 
         argv += ["-o", "out.json"]
     if ntc:
         argv.append("--no-type-checks")
-    res = _run(argv, files, stdin=d if stdin_doc else "")
+    res = _run(argv, files, stdin=(d if isinstance(d, str) else "{}") if stdin_doc else "")
     exp = _expected(lambda: jsonpath.JSONPathEnvironment(unicode_escape=not nue, well_typed=not ntc).compile(q.strip() if viafile else q).findall(_asfile(d)))
     return ok(_judge(res, exp, pretty, debug, outfile, files))
 
